@@ -21,7 +21,7 @@ import ast
 from ..callgraph import CallGraph
 from ..core import region, AnalysisError, RuleContext, need, norm, short
 from ..model import FuncInfo, dotted_of, walk_scope
-from ..roles import roles_for
+from ..roles import node_calls, roles_for
 from ..typestate import NoReturn, StackBalance
 
 EXPLANATION = __doc__
@@ -36,6 +36,8 @@ def run(ctx: RuleContext):
     ctx.sub(check_context_block_starts_empty, ctx, r)
     ctx.sub(check_storage_discipline, ctx, r)
     ctx.sub(check_passthrough_guard, ctx, r)
+    ctx.sub(check_push_cannot_fail_after_append, ctx, r)
+    ctx.sub(check_only_innermost_frame_is_read, ctx, r)
 
 
 # ------------------------------------------------------------------------ C05.5
@@ -673,3 +675,97 @@ def _is_has_test(model, fn, test, has_fn, r, al, stack_tl=None, stack_attr=None)
                 ):
                     return True
     return False
+
+
+# ------------------------------------------------------------------------ C05.7
+_INFALLIBLE = {"len", "id", "isinstance", "type", "tuple", "dict", "list", "bool"}
+
+
+def check_push_cannot_fail_after_append(ctx: RuleContext, r):
+    """C05.7: once the new frame is on the stack, the push function returns without doing anything that can raise.  Its callers open
+    their `try: .. finally: pop` *after* the push has returned, so an exception raised by the push function after the append (a warning
+    turned into an error, a logging hook, a conversion of the arguments) leaves a frame on the stack that nobody pops: the caller's
+    own bindings are gone for the rest of its activation and checks outside every context become stateful."""
+    m = ctx.model
+    push = follow_delegate(m, r.push)
+    ctx.saw(push)
+    g = NoReturn(m).cfg(push)
+    app = [n for n in g.live_nodes() for c in node_calls(n) if isinstance(c.func, ast.Attribute) and c.func.attr in ("append", "insert", "extend", "appendleft")]
+    need(app, "C05.7: the statement that puts the new frame on the stack was not found in the push function")
+    after = set()
+    for a in app:
+        for k, s_ in a.succ:
+            if k in ("n", "t", "f", "loop", "done"):
+                after |= g.reach_from(s_, avoid=lambda n: False)
+    n_checked = 0
+    bad = False
+    for nid in sorted(after):
+        n = g.nodes[nid]
+        if n.ast is None:
+            continue
+        n_checked += 1
+        if n.kind == "raise":
+            bad = True
+            ctx.bad("C05.7", push, n.ast, "the push function can raise after it has put the new frame on the stack: callers enter their try/finally only after the push returned, "
+                    "so that frame is never popped", construct="raise after the frame was appended")
+            continue
+        for c in node_calls(n):
+            nm = norm(c.func)
+            if nm in _INFALLIBLE or any(c is c2 for a in app for c2 in node_calls(a)):
+                continue
+            bad = True
+            ctx.bad("C05.7", push, c, f"`{short(c, 60)}` runs after the new frame was put on the stack and may raise (a warning turned into an error, a hook, a conversion): callers enter "
+                    "their try/finally only after the push returned, so the frame would never be popped and the caller's bindings are lost",
+                    construct=f"fallible call after the frame was appended: {short(c, 60)}")
+    if not bad:
+        ctx.ok("C05.7", push.qualname, f"nothing that can raise runs between the append and the return ({n_checked} node(s) after the append)")
+
+
+# ------------------------------------------------------------------------ C05.8
+def check_only_innermost_frame_is_read(ctx: RuleContext, r):
+    """C05.8: 'a call sees only the bindings created during that call': the context stack is only ever pushed, popped, measured and
+    indexed at its top.  Reading any other frame -- `stack[:-1]`, `stack[0]`, a loop over the stack, `reversed(stack)` -- lets a call
+    see bindings of its callers (a scope chain): the same call then passes, fails or raises depending on who called it."""
+    m = ctx.model
+    stack_tl, stack_attr, _ = locate_stack(r)
+    n_uses = 0
+    bad = False
+    for f in m.all_functions(include_typeguard=False):
+        al = r.local_aliases(f)
+
+        def is_stack(e):
+            t = r.tl_of_expr(f, e, al)
+            return t is not None and t[0] == stack_tl and list(t[1]) == [stack_attr]
+
+        parents = {}
+        for p_ in ast.walk(f.node):
+            for c_ in ast.iter_child_nodes(p_):
+                parents[id(c_)] = p_
+        for n in walk_scope(f.node):
+            if not isinstance(n, (ast.Attribute, ast.Name, ast.Call)) or not is_stack(n):
+                continue
+            if isinstance(n, ast.Name) and isinstance(n.ctx, ast.Store):
+                continue
+            p_ = parents.get(id(n))
+            # the chain `tl.memo_stack` is itself an Attribute whose .value is the thread-local: only judge the outermost stack expression
+            if isinstance(p_, (ast.Attribute, ast.Subscript, ast.Call)) and is_stack(p_):
+                continue
+            n_uses += 1
+            why = None
+            if isinstance(p_, ast.Subscript) and p_.value is n:
+                if isinstance(p_.ctx, ast.Load) and not _index_is_top(p_):
+                    why = f"`{short(p_, 50)}` reads frames other than the innermost one"
+            elif isinstance(p_, (ast.For, ast.comprehension)) and p_.iter is n:
+                why = "the stack is iterated (every frame is visited)"
+            elif isinstance(p_, ast.Call) and n in p_.args and norm(p_.func) in ("reversed", "list", "tuple", "iter", "enumerate", "zip", "sorted", "itertools.chain", "map", "filter"):
+                why = f"the whole stack is handed to `{norm(p_.func)}`"
+            elif isinstance(p_, ast.Starred):
+                why = "the stack is unpacked"
+            if why:
+                bad = True
+                ctx.bad("C05.8", f, p_, f"{why}: a call would see bindings that were not created during that call (those of its callers), so its verdict depends on who calls it",
+                        construct=f"non-top read of the context stack in {f.name}")
+    ctx.counters["stack_uses"] = n_uses
+    ctx.floor("C05.8", "stack_uses", 4)
+    if not bad:
+        ctx.ok("C05.8", "_storage", f"all {n_uses} uses of the context stack push, pop, measure or index its top")
